@@ -421,3 +421,53 @@ func (v *VerifCtl) Mergeable() []VMaster {
 	}
 	return out
 }
+
+// VWeightProbe is the outcome of a weight-only update of a VirtualServer of another class, delivered to
+// the real informer handler with -weight-changes-dynamic-reload switched on.
+type VWeightProbe struct {
+	Stored bool           `json:"stored"` // the foreign VirtualServer entered Configuration (objects or hosts)
+	Events []VEvent       `json:"events"`
+	Writes []VStatusWrite `json:"writes"`
+}
+
+func verifSplitVS(class string, w1, w2 int, gen int64) *conf_v1.VirtualServer {
+	pass := func(u string) *conf_v1.Action { return &conf_v1.Action{Pass: u} }
+	return &conf_v1.VirtualServer{
+		ObjectMeta: meta_v1.ObjectMeta{Namespace: "wp", Name: "foreign", UID: "uid-wp-foreign", Generation: gen},
+		Spec: conf_v1.VirtualServerSpec{
+			IngressClass: class, Host: "wp.example.com",
+			Upstreams: []conf_v1.Upstream{{Name: "u1", Service: "s1", Port: 80}, {Name: "u2", Service: "s2", Port: 80}},
+			Routes:    []conf_v1.Route{{Path: "/", Splits: []conf_v1.Split{{Weight: w1, Action: pass("u1")}, {Weight: w2, Action: pass("u2")}}}},
+		},
+	}
+}
+
+// WeightProbe edits only the split weights of a VirtualServer that belongs to another controller.
+func (v *VerifCtl) WeightProbe() VWeightProbe {
+	old, cur := verifSplitVS("other", 50, 50, 1), verifSplitVS("other", 60, 40, 2)
+	nsi := v.lbc.namespacedInformers[""]
+	_ = nsi.virtualServerLister.Add(cur)
+	v.drainQueue()
+	v.rec.take()
+	v.kube.ClearActions()
+	v.conf.ClearActions()
+	v.lbc.weightChangesDynamicReload = true
+	createVirtualServerHandlers(v.lbc).UpdateFunc(old, cur)
+	v.lbc.weightChangesDynamicReload = false
+	q := v.lbc.syncQueue.queue
+	for q.Len() > 0 {
+		it, _ := q.Get()
+		q.Done(it)
+		v.lbc.sync(it.(task))
+	}
+	c := v.lbc.configuration
+	c.lock.RLock()
+	_, stored := c.virtualServers["wp/foreign"]
+	_, holds := c.hosts["wp.example.com"]
+	c.lock.RUnlock()
+	out := VWeightProbe{Stored: stored || holds, Events: v.rec.take(), Writes: v.statusWrites()}
+	_ = nsi.virtualServerLister.Delete(cur)
+	v.lbc.sync(task{Kind: virtualserver, Key: "wp/foreign"})
+	v.rec.take()
+	return out
+}
